@@ -421,3 +421,6 @@ HARNESSES = [
                                 [{"system": "quat_c", "order": list(o)} for o in ((3, 0, 1, 2), (1, 3, 0, 2), (2, 1, 3, 0))] +
                                 [{"system": "quat", "order": list(o)} for o in ((0, 2, 3, 1), (1, 3, 0, 2), (3, 1, 2, 0))]}),
 ]
+
+from harness.c10_extra import EXTRA as _EXTRA
+HARNESSES = HARNESSES + _EXTRA
